@@ -21,9 +21,16 @@ for mp in sorted(glob.glob(os.path.join(ROOT, "seeded", "*", "meta.json"))):
     if head:
         used.setdefault(m["property"], []).append(head)
 
-FLAVOURS = """- A: a LATENT defect: the changed operation itself still returns the right answer and leaves every observer right for the moment; the damage shows only later, through a different operation family than the one you changed (for example a removal that leaves internal bookkeeping slightly wrong so that a much later insertion, iteration, serialization or Clear misbehaves). It should survive a test that checks the container after every single step with the usual observers for at least a few steps.
+FLAVOURS_BY_WAVE = {
+ 5: """- A: a LATENT defect: the changed operation itself still returns the right answer and leaves every observer right for the moment; the damage shows only later, through a different operation family than the one you changed (for example a removal that leaves internal bookkeeping slightly wrong so that a much later insertion, iteration, serialization or Clear misbehaves). It should survive a test that checks the container after every single step with the usual observers for at least a few steps.
 - B: a defect at a SEAM between this property's containers and another part of the library they rely on or that relies on them (the containers the property names are often built on other containers: lists under stacks and queues, the red-black tree under TreeMap/TreeSet/TreeBidiMap, hash maps under the bidirectional and linked maps, utils comparators, containers.GetSortedValues, the enumerable and iterator and serialization files). Change the lower layer in a way that its own package's behaviour stays plausible but the property's container breaks in a rare situation - or the other way round.
-- C: your most devious idea for this property - something you believe even a careful reviewer and extensive automated randomized testing would probably still miss, while a user could realistically hit it (think of unusual but legal element types and values, unusual but legal comparators, boundaries of internal constants, particular sizes, process-wide state, the order of two unrelated calls)."""
+- C: your most devious idea for this property - something you believe even a careful reviewer and extensive automated randomized testing would probably still miss, while a user could realistically hit it (think of unusual but legal element types and values, unusual but legal comparators, boundaries of internal constants, particular sizes, process-wide state, the order of two unrelated calls).""",
+ 6: """- A: a defect of RE-USE: it needs the container to have been reset or rebuilt in the middle of its life (Clear, FromJSON onto a used container, removal of the last element, a ring that wrapped, a list that shrank back) and then used again in a particular way; a container that only grows, or one that is checked right after the reset, never shows it.
+- B: a defect in a container that was PRODUCED BY ANOTHER OPERATION rather than by its constructor - the result of Select/Map, of Intersection/Union/Difference, of a json round trip, the map behind a set, the list behind a stack - which looks right when enumerated but misbehaves when it is itself mutated, iterated backwards, serialised, combined with others or used as an argument. (If the property names no such operation, use FromJSON/UnmarshalJSON or Clear as the producing step.)
+- C: your most devious idea for this property - something you believe even a careful reviewer and extensive automated randomized testing would probably still miss, while a user could realistically hit it. The earlier rounds already covered: comparators with large or extreme results, NaN and -0.0, named and zero-size and pointer element types, sizes in the tens of thousands, hash collisions, package-level caches and pools, position hints that survive a mutation, the library's own TimeComparator. Find something none of these would reach.""",
+}
+FLAVOURS = FLAVOURS_BY_WAVE.get(wave, FLAVOURS_BY_WAVE[6])
+
 
 os.makedirs(os.path.join(scratch, "out"), exist_ok=True)
 for line in open(os.path.join(ROOT, "properties.jsonl")):
@@ -55,7 +62,7 @@ QUANTIFIED OVER: {quant}
 
 THREE different, independent code changes (A, B and C) to the library's non-test source files, each of which BREAKS the property above while (1) the library still compiles, and (2) the library's ENTIRE existing test suite still passes unchanged (do not edit or delete any existing *_test.go file). For each change also write a demonstration: a small new Go test file (demo_a_test.go / demo_b_test.go / demo_c_test.go placed in the relevant package directory; test function names must contain "Demo") that FAILS with your change applied and PASSES on the unmodified library. The demo may use goroutines with `-race`, counting comparators, os.Stdout capture, recover, exported struct fields etc., whatever the property requires (run a possibly non-terminating operation in a goroutine with a timeout).
 
-This is the {ordinal} round of this exercise; the earlier rounds already used the ideas listed at the end of this section, so be inventive and stay strictly WITHIN the property: the container must be made by its constructor and used only through its documented exported methods (do not rely on zero-value containers, on overwriting exported struct fields, on iterators kept across a mutation, on element types whose == panics, on NaN inside hash-based containers, on what a callback sees in the middle of a mutating operation, or on accessor values of an iterator that has not just moved successfully - those are outside the property; the violation must be a wrong answer, wrong state, panic, hang, output or data race that the property's own wording forbids). Each change must still look like a plausible programmer mistake, refactoring slip or "optimisation" (not sabotage), stay small, and need something SPECIFIC and RARE to manifest. Aim for three different flavours:
+This is the {ordinal} round of this exercise; the earlier rounds already used the ideas listed at the end of this section, so be inventive and stay strictly WITHIN the property: the container must be made by its constructor and used only through its documented exported methods (do not rely on zero-value containers, on overwriting exported struct fields, on iterators kept across a mutation, on element types whose == panics, on NaN inside hash-based containers, on what a callback sees in the middle of a mutating operation, on a comparator or callback that panics or cannot take the zero value of the element type, on the library's utils comparators themselves, or on accessor values of an iterator that has not just moved successfully - those are outside the property; the violation must be a wrong answer, wrong state, panic, hang, output or data race that the property's own wording forbids). Each change must still look like a plausible programmer mistake, refactoring slip or "optimisation" (not sabotage), stay small, and need something SPECIFIC and RARE to manifest. Aim for three different flavours:
 {FLAVOURS}
 Do not repeat these already-used ideas:
 {ideas}
